@@ -306,7 +306,8 @@ def safe_get_type_hints(
     try:
         hints = get_type_hints(func, include_extras=include_extras)
     except Exception:  # noqa: BLE001
-        hints = func.__annotations__
+        # e.g. a `functools.partial` or a callable instance: no `__annotations__` at all
+        hints = getattr(func, "__annotations__", {})
     _globals = getattr(func, "__globals__", {})
     memo = TypeCheckMemo(globals=_globals, locals=None)
     resolved_hints = {}
